@@ -242,6 +242,9 @@ def _close(a, b, tol=1e-9):
         return False
     xs = va["re"] + va.get("im", [0.0] * len(va["re"]))
     ys = vb["re"] + vb.get("im", [0.0] * len(vb["re"]))
+    import math
+    if not all(math.isfinite(v) for v in xs + ys):
+        return False          # nan / inf (e.g. garbage read through a stale FMM interface) never equals a fresh value
     scale = max([1e-300] + [abs(y) for y in ys])
     return max([0.0] + [abs(x - y) for x, y in zip(xs, ys)]) <= tol * scale
 
@@ -316,7 +319,7 @@ def _verdicts(ctx, data):
         if o is None:
             ctx.problem("harness", "observation missing for history %d step %d" % (hi, si))
             continue
-        rows.append((hi, si, sp, _close(o, f, 5e-6 if sp.get("single") else 1e-9), o, f))
+        rows.append((hi, si, sp, _close(o, f, 1e-4 if sp.get("single") else 1e-9), o, f))
         t = data["true"].get(k)
         if t is not None and "results" in t and not _close(t["results"][0], f):
             ctx.problem("harness", "the hand-reset 'fresh' emulation differs from a truly fresh interpreter", sp)
